@@ -26,9 +26,10 @@ def main():
     notes = open(os.path.join(wt, "NOTES.md")).read() if os.path.exists(os.path.join(wt, "NOTES.md")) else ""
     open(os.path.join(d, "NOTES.md"), "w").write(notes)
     with_change = sh("/venv/bin/python demo.py", wt).returncode
-    sh("git stash -q -- cisco_acl", wt)
+    # no `git stash` here: the stash stack is shared by all worktrees of a repository
+    sh("git checkout -- cisco_acl", wt)
     without = sh("/venv/bin/python demo.py", wt).returncode
-    sh("git stash pop -q", wt)
+    sh(f"git apply {os.path.join(d, 'patch.diff')}", wt)
     tests = sh("/venv/bin/python -m pytest -q -p no:cacheprovider --deselect tests/test__package.py::test__last_modified_date 2>&1 | tail -1", wt).stdout.strip()
     checks = {}
     for c in caught.split(","):
